@@ -468,9 +468,15 @@ def scrape_counter():
     if sz_checked == sz_unchecked:
         problems.append("struct_verifier.rs: how the struct size is accumulated is not recognised")
     mirsrc = read("idlc_mir/src/mir.rs")
+    type_new = fn_body(mirsrc, r"fn new\(ty: &idlc_ast::Type, idl_store: &IDLStore\) -> Self \{") or ""
+    if not type_new:
+        problems.append("mir.rs: Type::new not found")
     mir_checked = bool(re.search(r"size\s*\.checked_mul\(usize::from\(count\.get\(\)\)\)\s*\.unwrap_or_else\(\|\| \{?\s*panic!", mirsrc)) and \
-        bool(re.search(r"acc\.checked_add\(e\.size\(\)\)\.unwrap_or_else\(\|\| \{\s*panic!", mirsrc))
-    mir_unchecked = "size * usize::from(count.get())" in mirsrc and "fold(0, |acc, e| acc + e.size())" in mirsrc
+        bool(re.search(r"acc\.checked_add\(e\.size\(\)\)\.unwrap_or_else\(\|\| \{\s*panic!", mirsrc)) and \
+        bool(re.search(r"size = size\.checked_add\(field\.size\(\)\)\.unwrap_or_else\(\|\| \{\s*panic!", type_new)) and "size += field.size()" not in type_new
+    # (parse_struct adds the member sizes of the main file's own structs with +=: those have been through
+    # the struct verifier, which refuses a size that does not fit - fact struct_size_checked)
+    mir_unchecked = ("size * usize::from(count.get())" in mirsrc and "fold(0, |acc, e| acc + e.size())" in mirsrc) or "size += field.size()" in type_new
     facts["mir_size_checked"] = mir_checked
     if mir_checked == mir_unchecked:
         problems.append("mir.rs: how StructField::size / StructInner::size multiply and add is not recognised")
